@@ -18,7 +18,7 @@ RULE = ("random un-canted shots x look angle {0, +-0.5, +-5, +-30, +-45, +-59 de
         "distance exceeds 300 yd or the stored zero is non-zero")
 MUST_OBSERVE = ["zeroings", "zeroings_judged", "fire_backs", "look_level", "look_small", "look_steep", "with_wind",
                 "stored_zero_nonzero", "api_set_weapon_zero", "api_barrel_elevation", "raises_adjudicated", "unreachable_precondition", "raises_with_precondition_false",
-                "failures_zero_kept_checked"]
+                "failures_zero_kept_checked", "zeroed_before_under_other_conditions"]
 ASSUMPTIONS = ["'one integration step of travel' = the largest overshoot the zero finder's end condition permits: (min step + longest "
                "down-range advance of one step) / cos(trajectory angle), taken from the step trace of the fire-back; bound = accuracy + "
                "1.25 x (overshoot x |sin(relative angle)| + curvature remainder)",
@@ -140,6 +140,15 @@ def check_case(ctx, case):
         ctx.count("unreachable_precondition")
         ctx.case(case, nontrivial=False, sample=False)
         # still: a failed attempt must leave the stored zero alone, and a returned angle must hit
+    if case.get("prior_zero"):
+        # the calculator has just zeroed this very set-up under other wind / weather (same station altitude)
+        prior = dict(spec, winds=case["prior_zero"]["winds"], atmo=case["prior_zero"]["atmo"])
+        ctx.count("zeroed_before_under_other_conditions")
+        with monitors.quiet():
+            try:
+                calc.barrel_elevation_for_target(build.shot(prior), Distance.Foot(d_ft))
+            except (pb.ZeroFindingError, pb.RangeError):
+                pass
     shot = build.shot(spec)
     stored_before = shot.weapon.zero_elevation.raw_value
     api = case["api"]
@@ -248,6 +257,11 @@ def gen_case(rng):
     case = {"shot": s, "distance_ft": d_yd * 3.0, "api": rng.choice(["set_weapon_zero", "barrel_elevation"])}
     if rng.random() < 0.15:
         case["config"] = rng.choice([{"max_calc_step_size_feet": 1.0}, {"cZeroFindingAccuracy": 1e-4}, {"max_calc_step_size_feet": 0.25}])
+    if rng.random() < 0.25 and d_yd <= 600:
+        alt = s["atmo"].get("alt_ft", 0.0)
+        case["prior_zero"] = {"winds": [[round(rng.uniform(10, 50), 1), rng.choice([0.0, 180.0]), None]],
+                              "atmo": {"kind": "station", "alt_ft": alt, "p_hpa": round(rng.uniform(650, 1040), 1),
+                                       "t_c": round(rng.uniform(-25, 40), 1), "rh": 50.0}}
     return case
 
 
